@@ -3,7 +3,7 @@
 # Applies each seeded patch (seeded/<id>/patch.diff or neutral/<id>/patch.diff) to a private scratch worktree of /repo's HEAD
 # (never to /repo itself, so that it can run while other work reads /repo), runs the check of its property (and any extra listed in
 # <dir>/also; for neutral/* every claimed check) with STV_REPO pointing at the scratch tree, and prints one line per seed.
-# The scratch worktrees live under /tmp and are removed on exit.
+# The scratch worktrees live under /tmp and are removed on exit.  MX_ONLY="C07 C09" restricts the checks run on neutral patches.
 cd "$(dirname "$0")/.."
 V=$(pwd)
 J=4
@@ -24,7 +24,7 @@ one() {
   if ! git -C "$W/r" apply "$V/$d/patch.diff" 2>/dev/null; then
     echo "$id PATCH-FAILS"
   else
-    case "$d" in neutral/*|*/neutral/*) props="$ALL";; *) props="$prop $(cat "$d/also" 2>/dev/null)";; esac
+    case "$d" in neutral/*|*/neutral/*) props="${MX_ONLY:-$ALL}";; *) props="$prop $(cat "$d/also" 2>/dev/null)";; esac
     res=""
     for p in $props; do
       if echo " $ALL " | grep -q " $p "; then
